@@ -26,16 +26,28 @@ def run(ctx):
         e["t"] = 2
     vlib.note_events(ctx, g + t)
     # the regrouping package under Decode, bound directly (same trace specification)
-    b32 = vlib.build_driver(ctx, "pkg/bech32/internal/base32", ["base32/driver_test.go"], name="base32")
-    d32 = ctx.rundir("rec_base32")
-    vlib.run_driver(ctx, b32, "record", d32 + "/t.ndjson", n=6 if q else 60)
-    e32 = vlib.read_ndjson(d32 + "/t.ndjson")
-    for e in e32:
-        e["t"] = 3
-    vlib.note_events(ctx, e32, keep=1)
-    for e in vlib.reproduce(ctx, b32, vlib.validate_trace(ctx, "Bech32Trace", e32, label="T_base32"), history=e32):
-        ctx.bad.append(dict(event=e, reason="base32 regrouping differs from the specification's ToBase32 / FromBase32 (result, acceptance, count, offset range, buffers)"))
+    # (an internal package: its API may change freely, and what it does alone is not the property - a deviation there
+    # counts only together with a deviation of Decode, otherwise the leg is skipped)
+    b32_bad = []
+    try:
+        b32 = vlib.build_driver(ctx, "pkg/bech32/internal/base32", ["base32/driver_test.go"], name="base32")
+        d32 = ctx.rundir("rec_base32")
+        vlib.run_driver(ctx, b32, "record", d32 + "/t.ndjson", n=6 if q else 60)
+        e32 = vlib.read_ndjson(d32 + "/t.ndjson")
+        for e in e32:
+            e["t"] = 3
+        vlib.note_events(ctx, e32, keep=1)
+        b32_bad = vlib.reproduce(ctx, b32, vlib.validate_trace(ctx, "Bech32Trace", e32, label="T_base32"), history=e32)
+    except vlib.Infra as ex:
+        ctx.skipped.append("driver of the internal package base32 does not build or run against the working tree (skipped): %s" % str(ex)[:200])
+    nbad = len(ctx.bad)
     bc.judge(ctx, binp, g + t, "real Decode disagrees with the Bech32 specification (acceptance, outputs, re-encoding, offset range or panic)")
+    if b32_bad and len(ctx.bad) > nbad:
+        for e in b32_bad:
+            ctx.bad.append(dict(event=e, reason="base32 regrouping differs from the specification's ToBase32 / FromBase32 (result, acceptance, count, offset range, buffers)"))
+    elif b32_bad:
+        ctx.skipped.append("internal/base32 deviates from ToBase32 / FromBase32 without a deviation of Decode (%d events, first: %s): skipped, not a verdict"
+                           % (len(b32_bad), str({k: b32_bad[0][k] for k in ("op", "in")})[:200]))
     return vlib.finish(ctx, LEVEL, RULE, bc.ASSUME, matchers=bc.MATCHERS,
                        technique="TLA+ spec Bech32 (real polymod evaluated by TLC); exhaustive edit-closure model; TLC-generated strings replayed; recorded Decode calls validated by TLC")
 
